@@ -27,6 +27,11 @@ Definition enc_header (pk : pkey) : bytes :=
   be_encode 4 (N.of_nat (length (fst pk))) ++ fst pk ++ [snd pk].
 Definition enc (pk : pkey) (sk : bytes) : bytes := enc_header pk ++ sk.
 
+(* encode_to_rocksdb_bytes with its panic made explicit: u32::try_from(node_key.len()).unwrap();
+   None = panic.  `enc` is its value whenever it returns (theorem C15_encode_total_iff). *)
+Definition rocks_encode (pk : pkey) (sk : bytes) : option bytes :=
+  if N.of_nat (length (fst pk)) <? 2 ^ 32 then Some (enc pk sk) else None.
+
 (* decode_from_rocksdb_bytes; None = panic (slice index out of range) *)
 Definition rocks_decode (b : bytes) : option (pkey * bytes) :=
   match slice_to 4 b with
@@ -125,6 +130,18 @@ Section Rocks.
     option_map dedup (decode_all (kv_iter_start ops s)).
 
   Definition rocks_run (cs : list db_updates) : S := fold_left rocks_commit cs rocks_new.
+
+  (* the read entry points with the encoder panic explicit (outer None = panic) *)
+  Definition rocks_get_p (s : S) (pk : pkey) (sk : bytes) : option (option bytes) :=
+    match rocks_encode pk sk with
+    | Some k => Some (kv_get ops s k)
+    | None => None
+    end.
+  Definition rocks_list_p (s : S) (pk : pkey) (from : option bytes) : option (list (bytes * bytes)) :=
+    match rocks_encode pk (match from with Some f => f | None => [] end) with
+    | Some k => rocks_scan pk (kv_iter_from ops s k)
+    | None => None
+    end.
 End Rocks.
 
 (* the reference ordered map: a sorted association list *)
